@@ -356,6 +356,30 @@ theorem C15_delegate {β : Type} (f : FmtStr) (m : Text → Except PyErr (StrRes
     rw [mapM_const_ok ts (fun t => fmtstrAtts t sh)]
     rfl
 
+/-- `sh` is exactly the formatting shared by all characters of `f`: on every character, and containing every
+    dict that is on every character (`C14_shared` + `C14_shared_complete`). -/
+def ExactlyShared (f : FmtStr) (sh : Atts) : Prop :=
+  (∀ p ∈ cells f, sh.le p.2) ∧ ∀ x : Atts, (∀ p ∈ cells f, x.le p.2) → x.le sh
+
+/-- Sharpened delegation / fill-character statements for a string with at least one character: the formatting of
+    the result is EXACTLY the formatting shared by all characters of the original (and the call cannot fail on
+    `shared_atts`). -/
+theorem C15_delegate_exact {β : Type} (f : FmtStr) (hch : cells f ≠ [])
+    (m : Text → Except PyErr (StrResult β)) :
+    ∃ sh, ExactlyShared f sh ∧
+      (∀ t, m (text f) = .ok (.str t) → delegate f m = .ok (.fmt [⟨t, sh⟩])) ∧
+      (∀ ts, m (text f) = .ok (.list ts) → delegate f m = .ok (.fmtList (ts.map fun t => [⟨t, sh⟩]))) := by
+  obtain ⟨sh, hs, h1, h2⟩ := C14_shared_complete f hch
+  obtain ⟨_, _, d3, d4⟩ := C15_delegate f m
+  exact ⟨sh, ⟨h1, h2⟩, fun t ht => (d3 t sh ht hs).1, fun ts ht => (d4 ts sh ht hs).1⟩
+
+theorem C15_just_fill_exact (f : FmtStr) (hch : cells f ≠ []) (w : Int) (c : Char) :
+    ∃ sh, ExactlyShared f sh ∧
+      ljust f w (some c) = .ok [⟨pyLjust (text f) w c, sh⟩] ∧
+      rjust f w (some c) = .ok [⟨pyRjust (text f) w c, sh⟩] := by
+  obtain ⟨sh, hs, h1, h2⟩ := C14_shared_complete f hch
+  exact ⟨sh, ⟨h1, h2⟩, by simp [ljust, hs, fmtstrAtts], by simp [rjust, hs, fmtstrAtts]⟩
+
 /-- Non-vacuity: `on_blue(underline('ab')).ljust(4)` is padded with non-underlined blue; a red string with a
     plain tail loses nothing it shares; split and splitlines on a two-run string. -/
 example : ljust [⟨['a', 'b'], { bg := some 4, underline := some true }⟩] 4 none
